@@ -289,7 +289,8 @@ class ManifestContext:
             audio_adps = self.calculate_audio_adaptation_sets(stream)
             text_adps = self.calculate_text_adaptation_sets(
                 stream, video.lang)
-        assert video is not None
+        if video is None or not video.representations:
+            flask.abort(404, 'no video representations are available for this request')
         if timing:
             opts.availabilityStartTime = timing.availabilityStartTime
             opts.timeShiftBufferDepth = timing.timeShiftBufferDepth
